@@ -5,6 +5,7 @@ R16.proj    projectionMatrix maps the eight frustum corners to the corners of [-
             projectScreenToRay passes through points that project back to the screen position; aspect, window
 R16.depth   normalizedZToDepth and the real-valued core of DepthToZ are mutually inverse and agree with the
             projection matrix's depth row; screenRadius / worldRadius factors are reciprocal
+            ZToDepth(z, zmin, zmax) = normalizedZToDepth((z - zmin)/(zmax - zmin)) (integers as exact reals)
 R16.planes  planes(): each plane has zero signed distance at the frustum corners of its face and its normal
             points outward (sign domain under 0 < n < f, l < r, b < t); order top,right,bottom,left,near,far
 R16.ft      FrustumTest::setFrustum stores plane k's normal/|normal|/distance at [k/3][k%3]; every predicate
